@@ -120,7 +120,8 @@ def run_dir(case, rev):
     vert = bool(case.get("vertical"))
     conf = drive.roms_conf(d, d / "f_*.nc", S0, S0 + sgn * n * DT, DT, rows, outvars=("pid", "X", "Y", "Z", "tag"), period=P * DT + (DT // 2 if case.get("offgrid") else 0),
                            tracker=dict(advection=case["scheme"], **(dict(vertical_advection=True) if vert else {})), reversed_=rev, release_extra=rel_extra,
-                           state=dict(instance_variables=dict(tag="int", **(dict(w="float") if vert else {}))), extra_forcing=["w"] if vert else None)
+                           state=dict(instance_variables=dict(tag="int", **(dict(w="float") if vert else {}))), extra_forcing=["w"] if vert else None,
+                           reference=world.tosec("1948-01-01T00:00:00") if vert else None)  # one slice counts its output time from another century
     conf["output"]["instance_variables"]["tag"] = world.ovar("i4")
     clock = []
     drive.run_model(conf, d, after_step=lambda m, k: clock.append((m.timer.step, world.tosec(m.timer.time))))
